@@ -287,7 +287,16 @@ func emitType(b *strings.Builder, p *sdl.Program, t *sdl.Type) {
 		case "runner":
 			base = "simrt.LocalRunner"
 		}
-		fmt.Fprintf(b, "var local%s = func() reflect.Type {\n\ttype Local struct{ %s }\n\treturn reflect.TypeOf(Local{})\n}()\n\n", t.Name, base)
+		mixin := ""
+		switch t.Mixin {
+		case "empty":
+			mixin = "\ttype Mixin struct{}\n"
+			base += "; Mixin"
+		case "log":
+			mixin = "\ttype Mixin struct {\n\t\tLog syslog.Logger `logger:\"\"`\n\t}\n"
+			base += "; Mixin"
+		}
+		fmt.Fprintf(b, "var local%s = func() reflect.Type {\n%s\ttype Local struct{ %s }\n\treturn reflect.TypeOf(Local{})\n}()\n\n", t.Name, mixin, base)
 		return
 	}
 	// collect carriers
